@@ -188,6 +188,31 @@ fn main() {
             }
             0
         }
+        Some("probe-sibling") => {
+            // debugging aid: outcome classes of the sibling family under random options
+            let mut rng = rng::Rng::new(1);
+            let mut hist = std::collections::BTreeMap::<String, u64>::new();
+            for i in 0..600u64 {
+                let src = corpus::sibling_shader(i % 40, (i / 40) as u32);
+                let mut o = corpus::Opts::random(&mut rng);
+                o.validate = true;
+                o.rustfmt = false;
+                let out = corpus::run_job(&src, None, o);
+                let key = match &out {
+                    corpus::Outcome::Ok { .. } => "ok".to_string(),
+                    corpus::Outcome::Err { display, .. } => format!("err {}", &display[..display.len().min(200)]),
+                    corpus::Outcome::Panic { message } => format!("panic {}", &message[..message.len().min(200)]),
+                };
+                if key != "ok" && hist.get(&key).is_none() {
+                    println!("--- {key}\n{src}");
+                }
+                *hist.entry(key).or_default() += 1;
+            }
+            for (k, v) in hist {
+                println!("{v:5} {k}");
+            }
+            0
+        }
         Some("gen") => {
             // debugging aid: print a generated shader
             let seed = args.get(1).and_then(|s| s.parse().ok()).unwrap_or(1);
